@@ -43,8 +43,8 @@ var baseAssumptions = []string{
 // prints the verdict lines and returns the exit code.
 func (r *Report) Finish() int {
 	known := common.LoadKnown(r.VerifDir)
-	os.MkdirAll(filepath.Join(r.VerifDir, "replays"), 0o755)
-	os.MkdirAll(filepath.Join(r.VerifDir, "evidence"), 0o755)
+	os.MkdirAll(filepath.Join(common.OutDir(r.VerifDir), "replays"), 0o755)
+	os.MkdirAll(filepath.Join(common.OutDir(r.VerifDir), "evidence"), 0o755)
 	exit := 0
 	var execs, steps, states, cases int64
 	outcomes := 0
@@ -85,7 +85,7 @@ func (r *Report) Finish() int {
 			}
 			r.Violations++
 			name := fmt.Sprintf("%s-%s-%s.json", r.Prop, sanitize(f.Scenario), sanitize(f.Class))
-			path := filepath.Join(r.VerifDir, "replays", name)
+			path := filepath.Join(common.OutDir(r.VerifDir), "replays", name)
 			b, _ := json.MarshalIndent(f, "", " ")
 			os.WriteFile(path, b, 0o644)
 			fmt.Printf("VIOLATION property=%s replay=%s\n", r.Prop, path)
@@ -135,7 +135,7 @@ func (r *Report) Finish() int {
 	if os.Getenv("VERIF_EVIDENCE_MERGE") != "" {
 		// this run is the second half of a property whose first half (input-space enumeration)
 		// already wrote the evidence file: nest this run's coverage under one key
-		if old, err := os.ReadFile(filepath.Join(r.VerifDir, "evidence", r.Prop+".json")); err == nil {
+		if old, err := os.ReadFile(filepath.Join(common.OutDir(r.VerifDir), "evidence", r.Prop+".json")); err == nil {
 			var prev map[string]interface{}
 			if json.Unmarshal(old, &prev) == nil {
 				if pc, ok := prev["coverage"].(map[string]interface{}); ok {
@@ -161,7 +161,7 @@ func (r *Report) Finish() int {
 		}
 	}
 	b, _ := json.MarshalIndent(ev, "", " ")
-	if err := os.WriteFile(filepath.Join(r.VerifDir, "evidence", r.Prop+".json"), b, 0o644); err != nil {
+	if err := os.WriteFile(filepath.Join(common.OutDir(r.VerifDir), "evidence", r.Prop+".json"), b, 0o644); err != nil {
 		fmt.Println("INFRA-ERROR cannot write evidence:", err)
 		return 2
 	}
